@@ -23,7 +23,7 @@ PROP = dict(
         "Comdex.C18.accrual_subadditive", "Comdex.C18.more_frequent_triggering_not_more", "Comdex.C18.fee_toggle_restarts_clock",
         # state level: the locker bookkeeping (collector rate + stamp, locker stamp + BlockHeight == 0 flag, tracker), all histories
         "Comdex.C18.savings_only_for_time_at_positive_rate", "Comdex.C18.savings_time_budget_from_any_state",
-        "Comdex.C18.zero_rate_window_touched_counterexample",
+        "Comdex.C18.zero_rate_window_touched_counterexample", "Comdex.C18.savings_only_for_time_at_positive_rate_repaired",
         "Comdex.C18.locker_calc_books_interest", "Comdex.C18.locker_move_books_interest", "Comdex.C18.rate_change_restarts_clock",
         "Comdex.C18.zero_rate_window_earns_nothing", "Comdex.C18.locker_more_frequent_triggering_not_more",
         "Comdex.C18.accrual_subadditive_across_rate_change",
